@@ -1,8 +1,236 @@
 import MidnightZK.Model.Common
-/-! Line-protocol handler of property C10 (stub: answers `unimplemented`). -/
-namespace MidnightZK.C10.Driver
+import MidnightZK.Model.ModArith
+import MidnightZK.Model.C10.Limbs
+import MidnightZK.Model.C10.Field
+import MidnightZK.Model.C10.Mont
+import MidnightZK.Model.C10.Tower
+import MidnightZK.Gen.C10Constants
+/-!
+Line-protocol handler of property C10.
 
-def answer (_line : String) : String := "unimplemented"
+* `pf <Field> <op> <hex…>`   — prime-field operation on canonical integers (spec side);
+* `lf <Field> <op> <limbs…>` — limb-level operation of a pure-Rust Montgomery field
+  (`a,b,c,d` little-endian limbs), answered by the limb model;
+* `const <Field> <NAME>`     — canonical value of a published constant, from the generated file;
+* `tw <Tower> <op> <coeffs…>` — extension-field operation on coefficient vectors.
+-/
+namespace MidnightZK.C10.Driver
+open MidnightZK MidnightZK.C10
+
+def hx (n : Nat) : String := toHex n
+def optHex : Option Nat → String
+  | some n => hx n
+  | none => "none"
+
+def fmtL4 (a : L4) : String := fmtHexList a.toList
+
+def parseL4? (s : String) : Option L4 := do
+  let l ← (s.splitOn ",").mapM parseNat?
+  L4.ofList l
+
+/-- Prime-field operations on canonical values. -/
+def answerPf (f : FieldInfo) (op : String) (args : List Nat) : String :=
+  let p := f.p
+  match op, args with
+  | "add", [a, b] => hx (addMod a b p)
+  | "sub", [a, b] => hx (subMod a b p)
+  | "mul", [a, b] => hx (mulMod a b p)
+  | "neg", [a] => hx (negMod a p)
+  | "square", [a] => hx (mulMod a a p)
+  | "double", [a] => hx (addMod a a p)
+  | "inv", [a] => optHex (finv p a)
+  | "pow", [a, e] => hx (powMod a e p)
+  | "sqrt", [a] => optHex (sqrtMin p a)
+  | "legendre", [a] => toString (legendre p a)
+  | "reduce", [n] => hx (n % p)
+  | "from_repr", [n] => optHex (decodeCanonical p n)
+  | "from_raw", [n] => optHex (decodeRaw f n)
+  | "from_raw_unchecked", [n] => hx (ofMont f n)
+  | "to_raw", [a] => hx (encodeRaw f a)
+  | "is_odd", [a] => fmtBool (a % p % 2 = 1)
+  | "is_zero", [a] => fmtBool (a % p = 0)
+  | "cmp", [a, b] => if a % p < b % p then "lt" else if a % p = b % p then "eq" else "gt"
+  | "num_bits", [a] => toString (numBits (a % p))
+  | "lex_largest", [a] => fmtBool (lexLargest p a)
+  | "mul_small", [a, k] => hx (mulMod a k p)
+  | "shl", [a, k] => hx (mulMod a (powMod 2 k p) p)
+  | "shr", [a, k] => hx (mulMod a (powMod (invMod 2 p) k p) p)
+  | "sum", l => hx (l.foldl (fun acc a => addMod acc a p) 0)
+  | "product", l => hx (l.foldl (fun acc a => mulMod acc a p) (1 % p))
+  | "batch_invert", l =>
+    let (out, allInv) := batchInvert p l
+    fmtHexList out ++ " " ++ hx allInv
+  | "sqrt_ratio", [n, d] =>
+    -- ff::Field::sqrt_ratio contract: (is_square, root) with the four documented cases;
+    -- the answer is (flag, min-root of the value whose root is returned)
+    if d % p = 0 then
+      (if n % p = 0 then "1 0x0" else "0 0x0")
+    else
+      let q := mulMod n (invMod d p) p
+      match sqrtMin p q with
+      | some r => "1 " ++ hx r
+      | none => "0 sq-of-g-times-ratio"
+  | _, _ => "bad-op"
+
+def montParamsOf (name : String) : Option (MontParams × L4 × L4 × Bool) :=
+  -- (params, R2, R3, carry-aware variant)
+  let mk (m : List Nat) (inv : Nat) (r2 r3 : List Nat) (c : Bool) :=
+    match L4.ofList m, L4.ofList r2, L4.ofList r3 with
+    | some m, some r2, some r3 => some (⟨m, inv⟩, r2, r3, c)
+    | _, _, _ => none
+  match name with
+  | "JubjubFr" => mk Gen.JubjubFr.MODULUS Gen.JubjubFr.INV Gen.JubjubFr.R2 Gen.JubjubFr.R3 false
+  | "BlsFq" => mk Gen.BlsFq.MODULUS Gen.BlsFq.INV Gen.BlsFq.R2 Gen.BlsFq.R3 false
+  | "C25519Fp" => mk Gen.C25519Fp.MODULUS Gen.C25519Fp.INV Gen.C25519Fp.R2 Gen.C25519Fp.R3 true
+  | _ => none
+
+/-- Limb-level operations (arguments and answers are raw limb vectors). -/
+def answerLf (name op : String) (args : List String) : String :=
+  match montParamsOf name with
+  | none => "bad-op"
+  | some (p, r2, r3, carryAware) =>
+    let l4s := args.mapM parseL4?
+    match op, l4s with
+    | "sub", some [a, b] => fmtL4 (subL p.m a b)
+    | "add", some [a, b] => fmtL4 (if carryAware then addC p.m a b else addL p.m a b)
+    | "neg", some [a] => fmtL4 (negL p.m a)
+    | "mul", some [a, b] => fmtL4 (if carryAware then mulC p a b else mulL p a b)
+    | "square", some [a] => fmtL4 (if carryAware then squareC p a else squareL p a)
+    | "mont_reduce", some [lo, hi] =>
+      fmtL4 (if carryAware then montReduceC p lo.l0 lo.l1 lo.l2 lo.l3 hi.l0 hi.l1 hi.l2 hi.l3
+             else montReduce p lo.l0 lo.l1 lo.l2 lo.l3 hi.l0 hi.l1 hi.l2 hi.l3)
+    | "from_raw", some [a] => fmtL4 (if carryAware then mulC p a r2 else mulL p a r2)
+    | "to_canon", some [a] => fmtL4 (if carryAware then fromMontC p a else toCanonL p a)
+    | "from_u512", some [d0, d1] =>
+      fmtL4 (if carryAware then fromU512C p r2 r3 d0 d1 else fromU512L p r2 r3 d0 d1)
+    | "lt_modulus", some [a] => toString (ltModBorrow p.m a)
+    | "from_bytes", some [a] =>
+      -- (is_some, limbs of the value built regardless of the flag)
+      toString (ltModBorrow p.m a) ++ " " ++ fmtL4 (if carryAware then mulC p a r2 else mulL p a r2)
+    | "sqrt", some [a] => fmtOptL4 (sqrtLimbs name p carryAware a)
+    | "invert", some [a] => fmtOptL4 (invertLimbs name p a)
+    | "pow", some [a, e] => fmtL4 (powLimbs p carryAware (oneOf name) a e.toList)
+    | _, _ => "bad-op"
+where
+  fmtOptL4 : Option L4 → String
+    | some a => fmtL4 a
+    | none => "none"
+  oneOf (name : String) : L4 :=
+    match name with
+    | "JubjubFr" => (L4.ofList Gen.JubjubFr.R).getD L4.zero
+    | "BlsFq" => (L4.ofList Gen.BlsFq.R).getD L4.zero
+    | _ => (L4.ofList Gen.C25519Fp.R).getD L4.zero
+  sqrtLimbs (name : String) (p : MontParams) (carryAware : Bool) (a : L4) : Option L4 :=
+    match name with
+    | "JubjubFr" => jubjubSqrt p (oneOf name) a
+    | "C25519Fp" => c25519Sqrt p (oneOf name) a
+    | _ => none
+  invertLimbs (name : String) (p : MontParams) (a : L4) : Option L4 :=
+    match name with
+    | "JubjubFr" => jubjubInvert p a
+    | _ => none
+
+/-- Multiplicative generator published by the fields whose constants are not written in the
+repository sources (third-party crates / proc-macro output). -/
+def genOf : String → Option Nat
+  | "K256Fp" => some 3
+  | "K256Fq" => some 7
+  | "C25519Scalar" => some 2
+  | "Bn256Fq" => some Gen.Bn256Fq.MUL_GEN
+  | "Bn256Fr" => some Gen.Bn256Fr.MUL_GEN
+  | _ => none
+
+/-- Constants derived from the defining equations of `ff::PrimeField` (p, generator g):
+`S`, `t` with `p - 1 = 2^S t`, `ROOT_OF_UNITY = g^t`, `DELTA = g^(2^S)`, … -/
+def derivedConst (name c : String) : Option String := do
+  let f ← fieldOf name
+  let g ← genOf name
+  let p := f.p
+  let (t, s) := twoAdic (p - 1)
+  match c with
+  | "MODULUS_STR" => some (hx p)
+  | "S" => some (hx s)
+  | "NUM_BITS" => some (hx (numBits p))
+  | "ONE" => some (hx 1)
+  | "MULTIPLICATIVE_GENERATOR" => some (hx g)
+  | "ROOT_OF_UNITY" => some (hx (powMod g t p))
+  | "ROOT_OF_UNITY_INV" => some (hx (invMod (powMod g t p) p))
+  | "DELTA" => some (hx (powMod g (2 ^ s) p))
+  | "TWO_INV" => some (hx (invMod 2 p))
+  | _ => none
+
+/-- Canonical value of a published constant given as Montgomery limbs. -/
+def constOf (name c : String) : Option String :=
+  let mont (fname : String) (l : List Nat) : Option String :=
+    (fieldOf fname).map (fun f => hx (ofMont f (limbsVal l)))
+  let raw (n : Nat) : Option String := some (hx n)
+  match name, c with
+  | "BlsFq", "MODULUS" => raw (limbsVal Gen.BlsFq.MODULUS)
+  | "BlsFq", "MODULUS_STR" => raw Gen.BlsFq.MODULUS_STR
+  | "BlsFq", "CHAR" => raw (leBytesToNat Gen.BlsFq.MODULUS_REPR)
+  | "BlsFq", "S" => raw Gen.BlsFq.S
+  | "BlsFq", "NUM_BITS" => raw Gen.BlsFq.NUM_BITS
+  | "BlsFq", "ONE" => mont name Gen.BlsFq.R
+  | "BlsFq", "MULTIPLICATIVE_GENERATOR" => mont name Gen.BlsFq.GENERATOR
+  | "BlsFq", "ROOT_OF_UNITY" => mont name Gen.BlsFq.ROOT_OF_UNITY
+  | "BlsFq", "ROOT_OF_UNITY_INV" => mont name Gen.BlsFq.ROOT_OF_UNITY_INV
+  | "BlsFq", "DELTA" => mont name Gen.BlsFq.DELTA
+  | "BlsFq", "TWO_INV" => mont name Gen.BlsFq.TWO_INV
+  | "BlsFq", "ZETA" => mont name Gen.BlsFq.ZETA
+  | "BlsFp", "MODULUS" => raw (limbsVal Gen.BlsFp.MODULUS)
+  | "BlsFp", "MODULUS_STR" => raw Gen.BlsFp.MODULUS_STR
+  | "BlsFp", "CHAR" => raw (leBytesToNat Gen.BlsFp.MODULUS_REPR)
+  | "BlsFp", "S" => raw Gen.BlsFp.S
+  | "BlsFp", "NUM_BITS" => raw Gen.BlsFp.NUM_BITS
+  | "BlsFp", "ONE" => mont name Gen.BlsFp.R
+  | "BlsFp", "MULTIPLICATIVE_GENERATOR" => mont name Gen.BlsFp.GENERATOR
+  | "BlsFp", "ROOT_OF_UNITY" => mont name Gen.BlsFp.ROOT_OF_UNITY
+  | "BlsFp", "ROOT_OF_UNITY_INV" => mont name Gen.BlsFp.ROOT_OF_UNITY_INV
+  | "BlsFp", "DELTA" => mont name Gen.BlsFp.DELTA
+  | "BlsFp", "TWO_INV" => mont name Gen.BlsFp.TWO_INV
+  | "BlsFp", "ZETA" => mont name Gen.BlsFp.ZETA_BASE
+  | "JubjubFr", "MODULUS" => raw (limbsVal Gen.JubjubFr.MODULUS)
+  | "JubjubFr", "MODULUS_STR" => raw Gen.JubjubFr.MODULUS_STR
+  | "JubjubFr", "S" => raw Gen.JubjubFr.S
+  | "JubjubFr", "NUM_BITS" => raw Gen.JubjubFr.NUM_BITS
+  | "JubjubFr", "ONE" => mont name Gen.JubjubFr.R
+  | "JubjubFr", "MULTIPLICATIVE_GENERATOR" => mont name Gen.JubjubFr.GENERATOR
+  | "JubjubFr", "ROOT_OF_UNITY" => mont name Gen.JubjubFr.ROOT_OF_UNITY
+  | "JubjubFr", "ROOT_OF_UNITY_INV" => mont name Gen.JubjubFr.ROOT_OF_UNITY_INV
+  | "JubjubFr", "DELTA" => mont name Gen.JubjubFr.DELTA
+  | "JubjubFr", "TWO_INV" => mont name Gen.JubjubFr.TWO_INV
+  | "C25519Fp", "MODULUS" => raw (limbsVal Gen.C25519Fp.MODULUS)
+  | "C25519Fp", "MODULUS_STR" => raw Gen.C25519Fp.MODULUS_STR
+  | "C25519Fp", "S" => raw Gen.C25519Fp.S
+  | "C25519Fp", "NUM_BITS" => raw Gen.C25519Fp.NUM_BITS
+  | "C25519Fp", "ONE" => mont name Gen.C25519Fp.R
+  | "C25519Fp", "MULTIPLICATIVE_GENERATOR" => mont name Gen.C25519Fp.MULTIPLICATIVE_GENERATOR
+  | "C25519Fp", "ROOT_OF_UNITY" => mont name Gen.C25519Fp.ROOT_OF_UNITY
+  | "C25519Fp", "ROOT_OF_UNITY_INV" => mont name Gen.C25519Fp.ROOT_OF_UNITY_INV
+  | "C25519Fp", "DELTA" => mont name Gen.C25519Fp.DELTA
+  | "C25519Fp", "TWO_INV" => mont name Gen.C25519Fp.TWO_INV
+  | "C25519Fp", "ZETA" => mont name Gen.C25519Fp.ZETA
+  | "Bn256Fq", "MODULUS_STR" => raw Gen.Bn256Fq.MODULUS
+  | "Bn256Fq", "MULTIPLICATIVE_GENERATOR" => raw Gen.Bn256Fq.MUL_GEN
+  | "Bn256Fq", "ZETA" => raw Gen.Bn256Fq.ZETA
+  | "Bn256Fr", "MODULUS_STR" => raw Gen.Bn256Fr.MODULUS
+  | "Bn256Fr", "MULTIPLICATIVE_GENERATOR" => raw Gen.Bn256Fr.MUL_GEN
+  | "Bn256Fr", "ZETA" => raw Gen.Bn256Fr.ZETA
+  | _, _ =>
+    -- constants of the fields whose source is third-party or macro-generated: derived from
+    -- the defining equations (p, the published generator) — see `derivedConst`
+    derivedConst name c
+
+def answer (line : String) : String :=
+  match words line with
+  | "pf" :: fname :: op :: args =>
+    match fieldOf fname, args.mapM parseNat? with
+    | some f, some ns => answerPf f op ns
+    | _, _ => "bad-op"
+  | "lf" :: fname :: op :: args => answerLf fname op args
+  | ["const", fname, c] => (constOf fname c).getD "bad-op"
+  | "tw" :: tname :: op :: args => answerTower tname op args
+  | _ => "bad-op"
 
 end MidnightZK.C10.Driver
 
